@@ -1,6 +1,7 @@
 //! pv — property-based verification harness for tikv/rust-prometheus.
 pub mod engine;
 pub mod exec16;
+pub mod exhaust;
 pub mod fuzz;
 pub mod genfam;
 pub mod hb;
